@@ -43,6 +43,10 @@ CLAIMED = {
     'C12': ('Bounded model checking of the interval dynamic programme optimalPartition (and its wiring through optimalSegmentation) on a fully symbolic '
             'cost matrix: on every path the returned partition is proved optimal against all 2^(N-2) enumerated partitions, for both directions.',
             'DESIGN.md#c12', 'N <= 5 candidates fully explored (thorough: N = 6 under budget); costs in [0,100]', ''),
+    'C16': ('Bounded model checking of simplification, compositionally: distance_to_segment proved to be the true point-segment distance for catalogue chords (incl. the zero-length chord) under '
+            'symbolic translation and query point; Douglas-Peucker recursion run with every distance a free symbol and a symbolic tolerance (subsequence, ends kept, every dropped fix closer than the '
+            'tolerance to the chord of its kept neighbours, proved per path); end-to-end link on 3 fixes; Visvalingam on symbolic coordinates incl. closed loops (subsequence, ends kept, no exception).',
+            'DESIGN.md#c16', 'DP structure n <= 5 (quick) / 6 (thorough); Visvalingam n <= 4 / 5; 8 catalogue chords', ''),
     'C17': ('Bounded model checking of computeAbsCurv (ds feature, Integrator, temporary removal) and estimate_speed (centred / one-sided differences, zero-duration guard) on symbolic '
             'coordinates and symbolic integer-millisecond instants with ties: per path the abscissa increments and the speeds are proved equal to independent square-root terms over dx^2+dy^2 '
             '(lemma chaining), the frame conditions (positions, timestamps, other features, temporary ds) checked, and a second computation compared.',
